@@ -1,7 +1,7 @@
 (** C11 — Rewrites leave no orphans and references follow.
     Model: Model/RepoV.v (lib/src/repo.rs rebase_descendants_with_options and helpers,
     lib/src/rewrite.rs, lib/src/refs.rs, lib/src/commit_builder.rs). *)
-From Verif Require Import Base.Prelude Base.DagV Model.Merge Model.RepoV Model.C11 Proofs.C10 Proofs.C11.
+From Verif Require Import Base.Prelude Base.DagV Model.Merge Model.RepoV Model.C11 Proofs.C10 Proofs.C11 Proofs.C11Loop.
 
 (** rewritten_ids_with (new_parents is the instance that skips divergent records) never runs out
     of the stated fuel, whatever the mapping (cyclic or not): every key is expanded once. *)
@@ -56,6 +56,37 @@ Proof.
   eexists. eexists. eexists. split; [vm_compute; reflexivity|vm_compute; reflexivity].
 Qed.
 
+(** No orphans after the rebase loop, outside the class F5, for EVERY processing order that
+    respects the dependencies the implementation computes (a parent that is to be rebased, and a
+    to-be-rebased direct replacement of a rewritten parent, come first), any history, any records,
+    any options and any tree oracle. [s0] is the state when rebase_descendants is called
+    (invariant [J]: well-formed graph and view), [T] the set of commits to rebase
+    (find_descendants_for_rebase), [s1] the state after transform_commits' loop (before the
+    references are updated). Every commit of [s1] that has no rewritten/abandoned record and is in
+    scope (an ancestor of a head, a key or an immutable commit; or a commit created by the loop) is
+    clean: unless shielded (immutable, or an ancestor of a commit with a divergent record) it does
+    not descend, through unshielded commits, from a rewritten or abandoned commit.
+    Hypotheses: [noF5] = outside the (broad) class: the direct replacement of a rewritten/abandoned
+    parent of a commit to be rebased is not itself rewritten/abandoned; replacement targets are in
+    scope. *)
+Theorem C11_no_orphans_loop : forall (s0 : state) (o : rebase_opts),
+  J s0 ->
+  let T := find_descendants_for_rebase s0 (o_imm o) in
+  (forall x p r t, In x T -> In p (c_parents (getc (s_g s0) x)) ->
+     pm_nd (s_pm s0) p = Some r -> In t (new_parent_ids r) -> pm_nd (s_pm s0) t = None) ->
+  (forall k r t, In (k, r) (s_pm s0) -> In t (new_parent_ids r) -> In t (scope s0 (o_imm o))) ->
+  forall order s1,
+  valid_from s0 o [] order -> (forall x, In x T -> In x order) ->
+  rebase_fold o order s0 = Ok s1 ->
+  forall y, y < length (s_g s1) -> (y < length (s_g s0) -> In y (scope s0 (o_imm o))) ->
+    pm_nd (s_pm s1) y = None ->
+    let sh := ancs (pg (s_g s1)) (o_imm o ++ div_keys (s_pm s1)) in
+    ~ In y sh -> ~ Tainted (pg (s_g s1)) (nd_keys (s_pm s1)) sh y.
+Proof.
+  intros s0 o J0 T F5 Dom order s1 V Tall H.
+  exact (proj2 (loop_clean s0 o J0 F5 Dom order s1 V Tall H)).
+Qed.
+
 (** The full statement for the model: for every operation sequence ending in a rebase whose
     records are in the domain and outside the class F5, the model's own result satisfies every
     clause of the checker. *)
@@ -75,3 +106,4 @@ Print Assumptions C11_new_parents_terminates.
 Print Assumptions C11_new_parents_complete.
 Print Assumptions C11_no_orphans_checker_spec.
 Print Assumptions C11_no_orphans_refuted.
+Print Assumptions C11_no_orphans_loop.
